@@ -237,6 +237,7 @@ impl Engine for C15 {
             // commands that count k-mers pay one scheduling point per k-mer
             mega_1_in: if matches!(sub, "oligo" | "kcgr" | "min") { 2500 } else { 0 },
             twin_mega_1_in: 0,
+            many_1_in: 1500,
         };
         let mut records = g.gen(rng);
         if (sub == "oligo" || sub == "kcgr") && k >= 6 {
